@@ -305,7 +305,7 @@ def check(pid, tier, seed, only=None):
         print("HARNESS-ERROR " + h)
     print("%s %s: %d obligations: %d confirmed, %d refuted (%d known), %d inconclusive, %d error; %.0f s"
           % (pid, tier, len(obs), n["confirmed"], n["refuted"], len(knowns), n["inconclusive"], n["error"], wall), flush=True)
-    write_evidence(pid, pm, tier, seed, obs, results, n, traces, violations, knowns, inconc, harness_err, wall)
+    write_evidence(pid, pm, tier, seed, obs, results, n, traces, violations, knowns, inconc, harness_err, wall, partial=bool(only))
     if violations:
         return 1
     if harness_err or (n["confirmed"] == 0 and not knowns):
@@ -313,8 +313,10 @@ def check(pid, tier, seed, only=None):
     return 0
 
 
-def write_evidence(pid, pm, tier, seed, obs, results, n, traces, violations, knowns, inconc, harness_err, wall):
-    os.makedirs(EVID, exist_ok=True)
+def write_evidence(pid, pm, tier, seed, obs, results, n, traces, violations, knowns, inconc, harness_err, wall, partial=False):
+    # a partial run (--only, used while developing) must not replace the evidence of a full run
+    evid = os.path.join(OUT, "evidence-partial") if partial else EVID
+    os.makedirs(evid, exist_ok=True)
     paths = sum(int(r.get("paths") or 0) for r in results.values())
     queries = sum(int(r.get("queries") or 0) for r in results.values())
     solver_s = sum(float(r.get("solver_s") or 0) for r in results.values())
@@ -380,7 +382,7 @@ def write_evidence(pid, pm, tier, seed, obs, results, n, traces, violations, kno
         "wall_s": round(wall, 1),
         "violations": len(violations),
     }
-    with open(os.path.join(EVID, "%s.json" % pid), "w") as f:
+    with open(os.path.join(evid, "%s.json" % pid), "w") as f:
         json.dump(ev, f, indent=1, default=str)
 
 
